@@ -1457,25 +1457,22 @@ structure PLink (p : Pool) (j : List DOp) (g : Ghost) (used : List Bytes) : Prop
   usedF : ∀ id, g.F = some id → id ∈ used
 
 /-- validity of one pool flush: fresh id; the oracles of the dirty and clean loops enumerate the
-    remaining wrappers (the clean one without repetition), as Go's map iteration does; and
-    **the flush does not drop two or more existing DBs while no wrapper remains** (in that case the
-    code writes no dirty mark at all — see `pool_all_dropped_violates`). -/
+    remaining wrappers (the clean one without repetition), as Go's map iteration does. -/
 def FlushValid (p : Pool) (used : List Bytes) (id : Bytes) (o0 o1 o3 : List Name) : Prop :=
   let r := closePhase (o0.filter (p.queued.contains ·)) p.wrappers []
-  id ∉ used ∧ (∀ n, n ∈ o1 ↔ (r.1 n).isSome = true) ∧ o3.Nodup ∧ (∀ n, n ∈ o3 ↔ (r.1 n).isSome = true) ∧
-  ((∀ n, r.1 n = none) → r.2.length ≤ 1)
+  id ∉ used ∧ (∀ n, n ∈ o1 ↔ (r.1 n).isSome = true) ∧ o3.Nodup ∧ (∀ n, n ∈ o3 ↔ (r.1 n).isSome = true)
 
 theorem pool_flush {p : Pool} {j : List DOp} {g : Ghost} {used : List Bytes} (id : Bytes)
     (o0 o1 o2 o3 : List Name) (hr : Reach j g) (hl : PLink p j g used)
     (hv : FlushValid p used id o0 o1 o3) :
     ∃ g', Reach (j ++ (p.flush id o0 o1 o2 o3).2) g' ∧
       PLink (p.flush id o0 o1 o2 o3).1 (j ++ (p.flush id o0 o1 o2 o3).2) g' (id :: used) := by
-  obtain ⟨hfresh, hv1, hnd3, hv3, hv0⟩ := hv
+  obtain ⟨hfresh, hv1, hnd3, hv3⟩ := hv
   simp only [Pool.flush]
   obtain ⟨c1, c2, _, c4⟩ := closePhase_spec (o0.filter (p.queued.contains ·)) p.wrappers []
-  generalize closePhase (o0.filter (p.queued.contains ·)) p.wrappers [] = cp at c1 c2 c4 hv1 hv3 hv0
+  generalize closePhase (o0.filter (p.queued.contains ·)) p.wrappers [] = cp at c1 c2 c4 hv1 hv3
   obtain ⟨w0, toDrop⟩ := cp
-  simp only at c1 c2 c4 hv1 hv3 hv0 ⊢
+  simp only at c1 c2 c4 hv1 hv3 ⊢
   have w0_eq : ∀ n x, w0 n = some x → p.wrappers n = some x := by
     intro n x h
     rcases c1 n with h1 | h1
@@ -1497,8 +1494,15 @@ theorem pool_flush {p : Pool} {j : List DOp} {g : Ghost} {used : List Bytes} (id
       exact c4 n xx hp this h0
   have link0 : ∀ n x, w0 n = some x → ((replay j).get n).isSome = x.inited := by
     intro n x h; rw [hl.inited n]; simp [initedOf, w0_eq n x h]
+  -- phase M: dirty marks into the DBs about to be dropped
+  obtain ⟨rM, someM, sameM, markM⟩ := dropMarks_spec (dirtyMark id) (isDirty_dirtyMark id) toDrop j g hr
+  generalize hjM : j ++ toDrop.map (fun n => DOp.putMark n (dirtyMark id)) = jM at rM someM sameM markM
+  have orphanM : ∀ n, ((replay jM).get n).isSome = true → w0 n = none → n ∈ toDrop :=
+    fun n h => orphan n (by rw [← someM n]; exact h)
+  have linkM : ∀ n x, w0 n = some x → ((replay jM).get n).isSome = x.inited :=
+    fun n x h => by rw [someM n]; exact link0 n x h
   -- phase A: dirty marks
-  obtain ⟨rA, s1, s2, uA, dm⟩ := dirtyPhase_spec id o1 w0 j g hr link0
+  obtain ⟨rA, s1, s2, uA, dm⟩ := dirtyPhase_spec id o1 w0 jM g rM linkM
   generalize dirtyPhase id o1 w0 = dp at rA s1 s2 uA dm
   obtain ⟨w1, opsA⟩ := dp
   simp only at rA s1 s2 uA dm ⊢
@@ -1506,53 +1510,28 @@ theorem pool_flush {p : Pool} {j : List DOp} {g : Ghost} {used : List Bytes} (id
     intro n x h; exact s1 n x ((hv1 n).mpr (by rw [h]; rfl)) h
   have w1_none : ∀ n, w0 n = none → w1 n = none := by
     intro n h; rw [s2 n (Or.inr h)]; exact h
-  have getA_none : ∀ n, w0 n = none → (replay (j ++ opsA)).get n = (replay j).get n :=
+  have getA_none : ∀ n, w0 n = none → (replay (jM ++ opsA)).get n = (replay jM).get n :=
     fun n h => uA n (Or.inr h)
   have getA_some : ∀ n x, w0 n = some x →
-      ∃ db, (replay (j ++ opsA)).get n = some db ∧ db.mark = some (dirtyMark id) :=
+      ∃ db, (replay (jM ++ opsA)).get n = some db ∧ db.mark = some (dirtyMark id) :=
     fun n x h => dm n x ((hv1 n).mpr (by rw [h]; rfl)) h
-  -- phase B: drops
-  have phaseB : ∃ gB, Reach (j ++ opsA ++ toDrop.map DOp.drop) gB ∧ gB.G = none ∧ gB.F = g.F ∧
-      (∀ x, (replay (j ++ opsA ++ toDrop.map DOp.drop)).get x =
-        if x ∈ toDrop then none else (replay (j ++ opsA)).get x) := by
-    by_cases hw : ∃ y, (w0 y).isSome = true
-    · obtain ⟨y, hy⟩ := hw
-      obtain ⟨xy, hxy⟩ : ∃ xy, w0 y = some xy := by
-        cases h : w0 y with
-        | none => rw [h] at hy; cases hy
-        | some v => exact ⟨v, rfl⟩
-      obtain ⟨db, hg, hmk⟩ := getA_some y xy hxy
-      exact drops_spec toDrop _ g rA hl.idle
-        ⟨y, db, _, (fun h => by rw [drop_gone y h] at hxy; cases hxy), hg, hmk, isDirty_dirtyMark id⟩
-    · have hnone : ∀ n, w0 n = none := by
-        intro n
-        cases h : w0 n with
-        | none => rfl
-        | some v => exact absurd ⟨n, by rw [h]; rfl⟩ hw
-      have hlen := hv0 hnone
-      cases toDrop with
-      | nil => exact ⟨g, by simpa using rA, hl.idle, rfl, fun x => by simp⟩
-      | cons n rest =>
-        cases rest with
-        | cons _ _ => simp at hlen
-        | nil =>
-          have hoth : ∀ n', n' ≠ n → (replay (j ++ opsA)).get n' = none := by
-            intro n' hne
-            rw [getA_none n' (hnone n')]
-            cases hg : (replay j).get n' with
-            | none => rfl
-            | some db =>
-              have := orphan n' (by rw [hg]; rfl) (hnone n')
-              simp only [List.mem_singleton] at this
-              exact absurd this hne
-          refine ⟨_, Reach.drop rA hl.idle (Or.inl hoth), hl.idle, rfl, ?_⟩
-          intro x
-          simp only [List.map_cons, List.map_nil, List.mem_singleton]
-          rw [replay_snoc, get_drop]
+  -- phase B: drops (every existing DB is dirty by now)
+  have allDirty : ∀ x db, (replay (jM ++ opsA)).get x = some db → ∃ m, db.mark = some m ∧ isDirty m = true := by
+    intro x db hg
+    cases h0 : w0 x with
+    | some x0 =>
+      obtain ⟨db', hg', hmk⟩ := getA_some x x0 h0
+      rw [hg] at hg'; cases hg'
+      exact ⟨_, hmk, isDirty_dirtyMark id⟩
+    | none =>
+      rw [getA_none x h0] at hg
+      have hin := orphanM x (by rw [hg]; rfl) h0
+      exact ⟨_, markM x hin db hg, isDirty_dirtyMark id⟩
+  have phaseB := drops_spec toDrop (jM ++ opsA) g rA hl.idle allDirty
   obtain ⟨gB, rB, gBG, gBF, getB⟩ := phaseB
   -- phase C: data
   have dirtyB : ∀ n x, w1 n = some x →
-      ∃ db m, (replay (j ++ opsA ++ toDrop.map DOp.drop)).get n = some db ∧ db.mark = some m ∧ isDirty m = true := by
+      ∃ db m, (replay (jM ++ opsA ++ toDrop.map DOp.drop)).get n = some db ∧ db.mark = some m ∧ isDirty m = true := by
     intro n x hx
     cases h0 : w0 n with
     | none => rw [w1_none n h0] at hx; cases hx
@@ -1573,14 +1552,14 @@ theorem pool_flush {p : Pool} {j : List DOp} {g : Ghost} {used : List Bytes} (id
     | none => rw [w1_none n h0]
     | some x0 => rw [w1_some n x0 h0]; rfl
   -- phase D: clean marks
-  have existsC : ∀ n, ((replay (j ++ opsA ++ toDrop.map DOp.drop ++ opsC)).get n).isSome =
-      (if n ∈ toDrop then false else ((replay (j ++ opsA)).get n).isSome) := by
+  have existsC : ∀ n, ((replay (jM ++ opsA ++ toDrop.map DOp.drop ++ opsC)).get n).isSome =
+      (if n ∈ toDrop then false else ((replay (jM ++ opsA)).get n).isSome) := by
     intro n; rw [someC n, getB n]; split <;> rfl
   rw [cleanPhase_eq id o3 w2 (fun n => if n ∈ o3 then some true else none) hnd3
     (fun x hx => by rw [w2_some x]; exact (hv3 x).mp hx) (fun x hx => by simp [hx])]
   have hF : gB.F ≠ some id := by rw [gBF]; exact fun h => hfresh (hl.usedF id h)
   obtain ⟨g', rD, gG, gF, _, _, someD⟩ := flagFlush_spec id o3 (fun n => if n ∈ o3 then some true else none)
-    (j ++ opsA ++ toDrop.map DOp.drop ++ opsC) gB rC hnd3 (fun x hx => by simp [hx])
+    (jM ++ opsA ++ toDrop.map DOp.drop ++ opsC) gB rC hnd3 (fun x hx => by simp [hx])
     (by
       intro x hx
       obtain ⟨x0, h0⟩ : ∃ x0, w0 x = some x0 := by
@@ -1618,16 +1597,17 @@ theorem pool_flush {p : Pool} {j : List DOp} {g : Ghost} {used : List Bytes} (id
       by_cases hnd : x ∈ toDrop
       · rw [if_pos hnd] at hs; cases hs
       · rw [if_neg hnd, getA_none x h0] at hs
-        exact hnd (orphan x hs.symm h0))
-  refine ⟨g', by simpa only [List.append_assoc] using rD, ?_⟩
+        exact hnd (orphanM x hs.symm h0))
+  have eAll : j ++ (toDrop.map (fun n => DOp.putMark n (dirtyMark id)) ++ opsA ++ toDrop.map DOp.drop ++ opsC ++
+      (flagFlush id o3 (fun n => if n ∈ o3 then some true else none)).2)
+      = jM ++ opsA ++ toDrop.map DOp.drop ++ opsC ++
+      (flagFlush id o3 (fun n => if n ∈ o3 then some true else none)).2 := by
+    rw [← hjM]; simp only [List.append_assoc]
+  rw [eAll]
+  refine ⟨g', rD, ?_⟩
   constructor
   · intro n
-    have e : j ++ (opsA ++ toDrop.map DOp.drop ++ opsC ++
-        (flagFlush id o3 (fun n => if n ∈ o3 then some true else none)).2)
-        = j ++ opsA ++ toDrop.map DOp.drop ++ opsC ++
-        (flagFlush id o3 (fun n => if n ∈ o3 then some true else none)).2 := by
-      simp only [List.append_assoc]
-    rw [e, someD n, existsC n]
+    rw [someD n, existsC n]
     show _ = initedOf w2 n
     have hin : initedOf w2 n = initedOf w1 n := by simp only [initedOf, initC n]
     rw [hin]
@@ -1642,9 +1622,9 @@ theorem pool_flush {p : Pool} {j : List DOp} {g : Ghost} {used : List Bytes} (id
       by_cases hnd : n ∈ toDrop
       · rw [if_pos hnd]
       · rw [if_neg hnd, getA_none n h0]
-        cases hs : ((replay j).get n).isSome with
+        cases hs : ((replay jM).get n).isSome with
         | false => rfl
-        | true => exact absurd (orphan n hs h0) hnd
+        | true => exact absurd (orphanM n hs h0) hnd
   · exact gG
   · intro id' h
     rcases gF id' h with h1 | h1
@@ -1716,7 +1696,7 @@ theorem plink_init : PLink Pool.init [] ⟨none, none, false, fun _ => emptyData
 
 /-- **C25 for the flush-buffering pool.** For every history of opens, writes, deletes, queued drops
     and flushes through `SyncedPool` (flush ids pairwise distinct, map-order oracles arbitrary but
-    what a map iteration can yield, and no flush dropping ≥ 2 existing DBs with no wrapper left),
+    what a map iteration can yield),
     for EVERY crash point `k` in the durable-operation sequence and every order in which the restart
     visits the surviving DBs: `Initialize` reports an error, or returns nil with no user data anywhere,
     or returns the id of a flush that completed before the crash with every DB holding exactly the
@@ -1867,20 +1847,32 @@ example : (List.range (f_fixed.length + 1)).all (fun k =>
     checkP ["a", "c"] [[1], [2]] (f_fixed.take k)
       (restart D (["a", "c"].filter (fun n => (D.get n).isSome)))) = true := by decide
 
-/-- **Residual defect candidate of the repaired pool** (why `FlushValid` has its last clause): both
-    DBs are dropped in one flush, no wrapper remains, so no dirty mark is written; a crash between the
-    two drops restarts on flush id `01` with `a` gone. -/
-def w_all : List DOp :=
-  (poolExec Pool.init [.put "a" [1] (some [17]), .put "c" [2] (some [34]),
-    .flush [1] [] ["a", "c"] ["a", "c"] ["a", "c"], .dropQ "a", .dropQ "c",
-    .flush [2] ["a", "c"] [] [] []]).2
+/-- both DBs are dropped, no wrapper remains -/
+def w_all_setup : List PoolOp :=
+  [.put "a" [1] (some [17]), .put "c" [2] (some [34]), .flush [1] [] ["a", "c"] ["a", "c"] ["a", "c"],
+   .dropQ "a", .dropQ "c"]
 
+/-- second flush with the intermediate repair (6f78193 only: no mark when no wrapper remains) -/
+def w_all_mid : List DOp :=
+  (poolExec Pool.init w_all_setup).2 ++ ((poolExec Pool.init w_all_setup).1.flushNoDropMarks [2] ["a", "c"] [] [] []).2
+/-- … and with the final ordering (3bb25a4: the DBs about to be dropped are marked dirty first) -/
+def w_all_fixed : List DOp :=
+  (poolExec Pool.init w_all_setup).2 ++ ((poolExec Pool.init w_all_setup).1.flush [2] ["a", "c"] [] [] []).2
+
+/-- **D7, residual (ordering of 6f78193 alone).** Both DBs are dropped in one flush and no wrapper
+    remains, so no dirty mark is written; a crash between the two drops restarts on flush id `01` with
+    `a` gone: `P_C25` is false. Repaired by 3bb25a4. -/
 theorem pool_all_dropped_violates :
-    restart (replay (w_all.take 9)) ["c"] = some (some (cleanMark [1])) ∧
-    ¬ P_C25 (w_all.take 9) (restart (replay (w_all.take 9)) ["c"]) := by
+    restart (replay (w_all_mid.take 9)) ["c"] = some (some (cleanMark [1])) ∧
+    ¬ P_C25 (w_all_mid.take 9) (restart (replay (w_all_mid.take 9)) ["c"]) := by
   refine ⟨by decide, fun h => ?_⟩
   have := checkP_of_P ["a", "c"] [[1], [2]] _ _ h
   revert this; decide
+
+example : (List.range (w_all_fixed.length + 1)).all (fun k =>
+    let D := replay (w_all_fixed.take k)
+    checkP ["a", "c"] [[1], [2]] (w_all_fixed.take k)
+      (restart D (["a", "c"].filter (fun n => (D.get n).isSome)))) = true := by decide
 
 /-! ## non-vacuity: the hypotheses hold for a history with writes, a drop and two flushes -/
 
@@ -1898,7 +1890,7 @@ theorem iff_by_names {l : List Name} {f : Name → Bool} (names : List Name)
 
 theorem w_ops_valid : PoolValid Pool.init [] w_ops := by
   simp only [w_ops, w_setup, List.cons_append, List.nil_append, PoolValid, and_true, true_and]
-  refine ⟨⟨by simp, ?_, by decide, ?_, fun _ => by decide⟩, ⟨by decide, ?_, by decide, ?_, fun _ => by decide⟩⟩
+  refine ⟨⟨by simp, ?_, by decide, ?_⟩, ⟨by decide, ?_, by decide, ?_⟩⟩
   all_goals
     refine iff_by_names ["a", "c"] (by decide) ?_
     intro n hn
